@@ -41,6 +41,16 @@ class _SchedLog(list):
         self.by_key[self.key] = outcome
 
 
+def pre_tags(prog):
+    """tags of the events the model builds before initialize, in the order it builds them"""
+    out = []
+    for acts in [prog.get("init", []), prog.get("initial", [])] + [prog["handlers"][k] for k in prog.get("handlers", {})]:
+        for a in acts:
+            if a and a[0] == "pre" and a[3] not in out:
+                out.append(a[3])
+    return out
+
+
 class Ref:
     def __init__(self, prog):
         self.p = prog
@@ -66,9 +76,9 @@ class Ref:
         self._actions(self.p.get("initial", []), "@initial")     # initial methods: after construct_model, before the warm-up is scheduled
         self._push(self.warm, 10, WARMUP)
 
-    def _push(self, time, prio, tag):
-        e = (time, -prio, self.seq, tag)
-        self.seq += 1
+    def _push(self, time, prio, tag, seq=None):
+        e = (time, -prio, self.seq if seq is None else seq, tag)
+        self.seq += 1 if seq is None else 0
         bisect.insort(self.pending, e)
         self.where[tag] = e
 
@@ -83,6 +93,15 @@ class Ref:
                     self.sched.append("refused")       # negative delay (generators may produce one by rounding)
                 else:
                     self._push(self.clock + d, a[2], a[3])
+                    self.sched.append("ok")
+            elif k == "pre":
+                # an event object the model built before initialize (its constructor): created before every other event, so
+                # it comes first in a tie on time and priority
+                t = tnum(self.p, a[1])
+                if not (t >= self.clock):
+                    self.sched.append("refused")
+                else:
+                    self._push(t, a[2], a[3], seq=-10 ** 6 + pre_tags(self.p).index(a[3]))
                     self.sched.append("ok")
             elif k in ("abs", "ev"):
                 t = tnum(self.p, a[1])
